@@ -58,6 +58,8 @@ fn token_value(t: u64) -> Value {
 enum CallKind {
     Json,
     TypedJson,
+    TypedBeve,
+    TypedSlice(usize),
     Raw(usize),
     Empty,
 }
@@ -89,6 +91,30 @@ fn do_call(client: &Client, kind: CallKind, token: u64, timeout: Option<Duration
                 Err(e) => Err(format!("error: {e}")),
             }
         }
+        CallKind::TypedBeve => {
+            let body = (token, format!("tok-{token}"));
+            let r: Result<(u64, String), _> = match timeout {
+                Some(d) => client.call_typed_beve_with_timeout(&path, &body, d),
+                None => client.call_typed_beve(&path, &body),
+            };
+            match r {
+                Ok(v) if v == body => Ok(()),
+                Ok(v) => Err(format!("WRONG-RESPONSE call {token} got {v:?}")),
+                Err(e) => Err(format!("error: {e}")),
+            }
+        }
+        CallKind::TypedSlice(n) => {
+            let body: Vec<f64> = (0..n).map(|i| token as f64 + i as f64 / 8.0).collect();
+            let r: Result<Vec<f64>, _> = match timeout {
+                Some(d) => client.call_typed_slice_with_timeout(&path, &body, d),
+                None => client.call_typed_slice(&path, &body),
+            };
+            match r {
+                Ok(v) if v == body => Ok(()),
+                Ok(v) => Err(format!("WRONG-RESPONSE call {token} got a slice of {} (first {:?})", v.len(), v.first())),
+                Err(e) => Err(format!("error: {e}")),
+            }
+        }
         CallKind::Raw(len) => {
             let body = pattern(token, len);
             let r = match timeout {
@@ -116,10 +142,12 @@ fn do_call(client: &Client, kind: CallKind, token: u64, timeout: Option<Duration
 }
 
 fn draw_kind() -> CallKind {
-    match simkernel::choose(6) {
+    match simkernel::choose(8) {
         0 | 1 => CallKind::Json,
         2 => CallKind::TypedJson,
         3 => CallKind::Empty,
+        4 => CallKind::TypedBeve,
+        5 => CallKind::TypedSlice(pick(&[0usize, 1, 3, 600])),
         _ => CallKind::Raw(pick(&[0usize, 1, 47, 48, 49, 300, 5000])),
     }
 }
@@ -280,7 +308,7 @@ fn c04_client(case: &Case) {
         let c = client.clone();
         let case = case.clone();
         hs.push(thread::spawn(move || {
-            let out = c.batch_json(reqs);
+            let out = if simkernel::choose(2) == 0 { c.batch_json(reqs) } else { c.batch_json_with_timeout(reqs, Duration::from_secs(3_600)) };
             if out.len() != expect.len() {
                 case.fail("batch-misaligned", format!("batch of {} returned {} results", expect.len(), out.len()));
                 return;
